@@ -60,7 +60,13 @@ C05T = 'Bashlex.Props.C05Total'
 T_C05 += [('Bashlex.C05.' + t, C05T) for t in ['tokLog', 'C05_total_conditional', 'C05_total_single_conditional', 'C05_total_tokens_in_leaves']]
 T_C05 += [('Bashlex.C05.' + t, 'Bashlex.Props.C05Checked') for t in ['C05_total_checked', 'C05_total_tokens_in_leaves_checked', 'parserRunK_leaves']]
 T_C05 += [('Bashlex.C05.' + t, 'Bashlex.Props.C05Chars') for t in ['C05_chars_checked', 'posLay_charLay', 'skip_isLayout']] + [('Bashlex.C05.TG.' + t, 'Bashlex.Props.C05.TokGapsProof') for t in ['tokGaps_next', 'tokGaps_gather', 'tokLogG', 'tokLogGL', 'tokGapsC']]
+T_C05 += [('Bashlex.C05.' + t, 'Bashlex.Props.C05Final') for t in ['C05_chars_total', 'C05_final', 'C05_chain_checked', 'TGT.posLay_overapprox', 'run_gapsOK', 'coverOK_sound', 'act_ids', 'TGT.tokLogX', 'TGT.gap_layout', 'TGT.none_layout', 'TGT.tiled_of_covers']] + \
+         [('Bashlex.C03.act_store', 'Bashlex.Props.C05Final'), ('Bashlex.LR.run_sound_ordB', 'Bashlex.Props.C05Final')]
 reg('C05', 'propchecks.treespec', 'proof', T_C05 + T1, [ASCII, DEPTH, CORR,
+    'Props/C05Final.lean, Props/C05/F*.lean (4950 lines): the sub-task found C05_chars_checked WEAKER than it reads (posLay_overapprox, kernel-checked: PosLay is a property of the text alone, every character after any # on a line counts as layout - a token dropped behind a # inside a word would not be noticed) and repaired it: Skips are anchored at the end of the previous token (Chain), regions consumed by gatherheredocuments are newline / continuation / recorded body (GRegT, a re-walk of the tokenizer). '
+    'C05_chars_total: the gathered-body disjunct is GONE - every gathered body is a leaf of the tree flagged as a body (act_ids: all 39 actions conserve the pending redirects of their arguments; act_store: only p_redirection_heredoc appends a store cell); D11 needs no exclusion (it is about which text is the body). '
+    'C05_final: token level + character level + parts in one statement (PartsFinal: every run from the restart index satisfies TopOK and CharsTotal, the next index is max(nextIndex part, k+1); a final run that returns no node was delivered only dropped NEWLINEs and EOF and every position of it is layout - run_sound_ordB, accept entries only on $end - so no command is lost behind the last part). '
+    'Link to the executable spec, partial: coverOK_sound (under SortOK, a decidable per-input condition on Array.qsort: sorted permutation) gives an order-free geometric reason for each signature; run_gapsOK: for one run without here-documents every gapsOK signature is trailing-text-not-layout. NOT proved: coverOK for the whole parse result (where a top-level root ends, extended redirects, qsort itself)',
     'C05_chars_checked (the CHARACTER level, no hypothesis, same decidable condition): tokGaps_next - between the end of one delivered token and the start of the next the tokenizer skips only blanks, tabs, backslash-newline pairs and one comment up to its newline (which is the NEWLINE token); gathered here-document bodies lie inside the NEWLINE token span or between tokens - is PROVED for the real tokenizer (D31/D32 need no exclusion: the lost characters lie inside the previous token); lifted to the log (tokGapsC) and to the tree: every character of a part below the run frontier is inside a leaf, is layout (posLay_charLay: blank, tab, newline, the backslash of a continuation, inside a comment), belongs to the look-ahead token, to a time token (D19) or to a gathered here-document body. Residual, stated: that every gathered body is a leaf of the tree (a conservation fact of the actions; true on all inputs evaluated) and the link to the executable coverOK (qsort). ' +
     'C05_total_checked (NO hypothesis, decidable per-input condition rootEndsChecked as in C03). C05_total_conditional (token level), with RootEnds as the only hypothesis left (the token-source hypothesis is discharged: tokLog): one part per parser run, in order; the leaves of each part are exactly the delivered tokens, grouped '
     '([fd] op target = one redirect leaf, here-document bodies attached), no token duplicated, and the only tokens without a leaf are NEWLINEs in five listed grammar positions (kernel-checked witnesses); D19 is characterised exactly and '
